@@ -1,5 +1,3 @@
-from vf.pyunit import pyvc_unit
-from contracts import asn1, padding
 
 LEVEL = 'proof'
 MANIFEST = {
@@ -12,16 +10,8 @@ MANIFEST = {
             'Trusted: PYVC model of CPython semantics, z3/cvc5.',
 }
 TRUSTED = ['CPython semantics as modelled by PYVC (DESIGN.md 2.3)', 'z3 5.1 / cvc5 1.0.3']
-A = 'Crypto.Util.asn1.'
 
 
 def units(tier):
-    us = []
-    for t in ['BytesIO_EOF.read', 'BytesIO_EOF.read_byte', 'DerObject._decodeLen', 'DerObject._decodeFromStream', 'DerObject.decode']:
-        us.append(pyvc_unit('C13', 'asn1.' + t, asn1.registry, [A + t]))
-    # block_size makes the length arithmetic non-linear: instantiated per value (DESIGN 2.6)
-    sizes = [1, 2, 3, 8, 16, 255] if tier == 'quick' else list(range(1, 256))
-    for bs in sizes:
-        us.append(pyvc_unit('C13', 'padding.bs%03d' % bs, padding.registry,
-                            ['Crypto.Util.Padding.pad', 'Crypto.Util.Padding.unpad'], fix={'block_size': bs}))
-    return us
+    from vf.areas import collect
+    return collect('C13', tier)
